@@ -6,11 +6,11 @@ from ..oracles import cmark, htmlnorm, rules_ref
 from ..runner import Run
 from .c07 import CRASH_RE
 
-PLAN = {"B2/53": 900, "B3/89": 500, "B4/83": 250, "N1/11": 1200, "W1/2": 1000, "S2": 700, "S3": 150, "I4/97": 250, "H4": 1200, "P2": 900, "R2/3": 600, "R3": 300, "T4/3": 400, "Z1": 900}
+PLAN = {"B2/53": 360, "B3/89": 200, "B4/83": 100, "N1/11": 480, "W1/2": 400, "S2": 280, "S3": 60, "I4/97": 100, "H4": 480, "P2": 360, "R2/3": 240, "R3": 120, "T4/3": 160, "Z1": 360, "Q2": 280, "P3": 240, "E1/211": 200, "M3/5": 120, "L6": 160, "G2": 160, "H6": 198, "U2": 160, "L7/3": 160}
 EVALUATOR = "vp.props.c06:ev"
 RULE = (
     "documents = sub-lattices of the bounded universes on which C03's oracle holds (the independent parser agrees on the block structure), without pragmas / front matter / CR; "
-    "rules with a crisp documented trigger: md001 md003 md004 md009 md010 md012 md013 md014 md018 md019 md020 md021 md022 md023 md024 md025 md026 md027 md028 md029 md030 md031 md032 md033 md034 md035 md036 md037 md038 md039 md040 md041 md042 md043 md044 md045 md046 md047 md048, each under its default configuration (one scan with exactly these "
+    "rules with a crisp documented trigger: md001 md003 md004 md005 md007 md009 md010 md012 md013 md014 md018 md019 md020 md021 md022 md023 md024 md025 md026 md027 md028 md029 md030 md031 md032 md033 md034 md035 md036 md037 md038 md039 md040 md041 md042 md043 md044 md045 md046 md047 md048, each under its default configuration (one scan with exactly these "
     "rules enabled) and under the documented configuration values listed in oracles/rules_ref.py::REFS (rule alone, values via --set), variant scans only when the rule's construct occurs in the document; "
     "oracle: per rule an independent statement of the documented trigger over (source lines, markdown-it-py block view) giving MUST and MUST-NOT line sets (everything else = documentation silent, not judged); "
     "failure = a MUST line without a report of that rule (missed) or a report on a MUST-NOT line (spurious); only (line, rule id) is compared; non-trivial = a non-empty MUST set or a report; distinct by (source hash, rule, configuration)"
@@ -44,8 +44,16 @@ def relevant(rid, v):
         return bool(v.hrs)
     if rid in ("md046", "md048"):
         return bool(v.fences or v.code_blocks)
-    if rid in ("md025", "md026"):
+    if rid in ("md025", "md026", "md022"):
         return bool(v.headings)
+    if rid == "md029":
+        return bool(v.ol_lists)
+    if rid == "md007":
+        return bool(v.ul_items)
+    if rid == "md030":
+        return bool(v.li_items)
+    if rid == "md024":
+        return len(v.headings) >= 2
     if rid == "md009":
         return any(l.endswith(" ") for l in v.lines)
     if rid == "md010":
@@ -136,7 +144,7 @@ def main(tier, seed):
     return run.finish(RULE, assumptions=[
         "the references encode a conservative two-sided reading of newdocs/src/plugins/rule_md*.md: lines the documentation does not clearly decide are in neither set",
         "block structure comes from the vendored markdown-it-py (line maps), established per document by C03's oracle",
-        "rules without a crisp, parser-independent documented trigger (md002 md005 md006 md007 md011 md999 pml100 pml101) are not judged here; for md012 md014 md028 md043 and setext headings in md003 the documentation does not say which line carries the report, so a report on any line of the construct satisfies a MUST"])
+        "rules without a crisp, parser-independent documented trigger (md002 md006 md011 md999 pml100 pml101) are not judged here; for md012 md014 md028 md043 and setext headings in md003 the documentation does not say which line carries the report, so a report on any line of the construct satisfies a MUST"])
 
 
 def replay(case):
